@@ -38,7 +38,7 @@ package criteria_bounding
 //@   property C17 C18 C19 C20 C01 C07 C09
 //@   ensures fresh(result) && result.AllowedValuesRangeScaling == -1.0 && !result.DisallowNegativeValues
 
-//@ lemma [C17 C18 C19] clamp_in_interval: forall x real, lo real, hi real
+//@ lemma [C19] clamp_in_interval: forall x real, lo real, hi real
 //@   requires lo <= hi
 //@   ensures  lo <= clamp2(x, lo, hi) && clamp2(x, lo, hi) <= hi
 //@   ensures  lo <= x && x <= hi ==> clamp2(x, lo, hi) == x
@@ -48,3 +48,4 @@ package criteria_bounding
 //@ wire CriteriaBounding
 //@   property C01 C17 C18 C19 C20
 //@   json AllowedValuesRangeScaling=allowedValuesRangeScaling DisallowNegativeValues=disallowNegativeValues
+//@   gotypes AllowedValuesRangeScaling=float64 DisallowNegativeValues=bool
